@@ -134,7 +134,43 @@ func (colorizeToolS) translate(str string, initialColor ...color.Color) string {
 	for _, c := range initialColor {
 		clr = c
 	}
-	return color.GetCPT().Translate(str, clr)
+	return sanitizeTranslated(color.GetCPT().Translate(str, clr))
+}
+
+// sanitizeTranslated keeps the text and the colour sequences (ESC [ ... m) of
+// a translated string and blanks every other control byte. The translator
+// parses its input as HTML: it decodes character references (&#10; &#27;
+// &NewLine; ...) and turns a CR into LF, which used to put raw line breaks,
+// escape and control bytes into the middle of a coloured line.
+func sanitizeTranslated(s string) string {
+	clean := true
+	for i := 0; i < len(s) && clean; i++ {
+		clean = s[i] == '\t' || (s[i] >= 0x20 && s[i] != 0x7f)
+	}
+	if clean {
+		return s
+	}
+	var sb strings.Builder
+	sb.Grow(len(s))
+	for i := 0; i < len(s); i++ {
+		c := s[i]
+		if c == 0x1b && i+1 < len(s) && s[i+1] == '[' {
+			j := i + 2
+			for j < len(s) && (s[j] == ';' || (s[j] >= '0' && s[j] <= '9')) {
+				j++
+			}
+			if j < len(s) && s[j] == 'm' { // a colour sequence: keep it
+				sb.WriteString(s[i : j+1])
+				i = j
+				continue
+			}
+		}
+		if c != '\t' && (c < 0x20 || c == 0x7f) {
+			c = ' '
+		}
+		sb.WriteByte(c)
+	}
+	return sb.String()
 }
 
 func (colorizeToolS) rightPad(str, padChar string, minw int) string { //nolint:unused
